@@ -73,7 +73,7 @@ MUTANTS = [
      "            samples = self.mutate(final_samples, 1.0, n_steps=n_final_steps)\n",
      "            samples = self.mutate(final_samples, 1.0, n_steps=n_final_steps)\n            self.history.log_norm_ratio.append(samples.log_evidence_ratio(1.0))\n"),
     # ---- C09
-    ("c09-logq-second-draw", ["C09", "C10"], S + "samples.py",
+    ("c09-logq-second-draw", ["C09"], S + "samples.py",
      "            log_q=self.log_q[idx],\n            beta=beta,",
      "            log_q=self.log_q[rng.choice(len(self.x), size=n_samples, replace=True, p=w)],\n            beta=beta,"),
     ("c09-ignore-n_samples", ["C09", "C06"], S + "samples.py",
@@ -84,7 +84,7 @@ MUTANTS = [
      "        log_w = beta * (self.log_likelihood + self.log_prior - self.log_q)\n        # Normalise"),
     ("c09-keeps-old-beta", ["C09"], S + "samples.py",
      "            log_q=self.log_q[idx],\n            beta=beta,", "            log_q=self.log_q[idx],\n            beta=self.beta,"),
-    ("c09-prior-reversed", ["C09", "C10"], S + "samples.py",
+    ("c09-prior-reversed", ["C09"], S + "samples.py",
      "            log_prior=self.log_prior[idx],\n            log_q=self.log_q[idx],",
      "            log_prior=self.log_prior[idx[::-1].copy()],\n            log_q=self.log_q[idx],"),
     # ---- C18
@@ -99,6 +99,41 @@ MUTANTS = [
      "                ess = effective_sample_size(samples.log_weights(0.5 * (beta + samples.beta)))\n"),
     ("c18-resume-dup", ["C18"], S + "samplers/smc/base.py",
      "        if store_sample_history and not resumed:", "        if store_sample_history:"),
+    # ---- C17
+    ("c17-minipcn-mutate-order", ["C17"], S + "samplers/smc/minipcn.py",
+     "        samples.log_prior = samples.array_to_namespace(self.log_prior(samples))\n        samples.log_likelihood = samples.array_to_namespace(\n            self.log_likelihood(samples)\n        )",
+     "        samples.log_likelihood = samples.array_to_namespace(\n            self.log_likelihood(samples)\n        )\n        samples.log_prior = samples.array_to_namespace(self.log_prior(samples))"),
+    ("c17-count-calls", ["C17"], S + "samplers/base.py",
+     "        self.n_likelihood_evaluations += len(samples)", "        self.n_likelihood_evaluations += 1"),
+    ("c17-emcee-mutate-bypasses-counter", ["C17"], S + "samplers/smc/emcee.py",
+     "        samples.log_likelihood = samples.array_to_namespace(\n            self.log_likelihood(samples)\n        )",
+     "        samples.log_likelihood = samples.array_to_namespace(\n            self._log_likelihood(samples)\n        )"),
+    ("c17-mcmc-target-order", ["C17"], S + "samplers/mcmc.py",
+     "        samples.log_prior = self.log_prior(samples)\n        samples.log_likelihood = self.log_likelihood(samples)\n        log_prob = (",
+     "        samples.log_likelihood = self.log_likelihood(samples)\n        samples.log_prior = self.log_prior(samples)\n        log_prob = ("),
+    ("c17-importance-order", ["C17"], S + "samplers/importance.py",
+     "        samples.log_prior = samples.array_to_namespace(self.log_prior(samples))\n        samples.log_likelihood = samples.array_to_namespace(\n            self.log_likelihood(samples)\n        )",
+     "        samples.log_likelihood = samples.array_to_namespace(\n            self.log_likelihood(samples)\n        )\n        samples.log_prior = samples.array_to_namespace(self.log_prior(samples))"),
+    ("c17-initial-prior-from-untrimmed", ["C17", "C10"], S + "samplers/mcmc.py",
+     "        if n_samples_drawn > n_samples:\n            samples = samples[:n_samples]\n",
+     "        if n_samples_drawn > n_samples:\n            stale_prior = samples.log_prior[-n_samples:]\n            samples = samples[:n_samples]\n            samples.log_prior = stale_prior\n"),
+    ("c17-emcee-evidence-prior-skipped-on-resample", ["C17"], S + "samplers/mcmc.py",
+     "        samples_evidence.log_prior = self.log_prior(samples_evidence)\n        samples_evidence.log_likelihood = self.log_likelihood(samples_evidence)",
+     "        samples_evidence.log_likelihood = self.log_likelihood(samples_evidence)\n        samples_evidence.log_prior = self.log_prior(samples_evidence)"),
+    # ---- C10
+    ("c10-mutate-stale-logq", ["C10"], S + "samplers/smc/minipcn.py",
+     "        samples.log_q = samples.array_to_namespace(\n            self.prior_flow.log_prob(samples.x)\n        )\n        samples.log_prior = samples.array_to_namespace(self.log_prior(samples))",
+     "        samples.log_q = particles.log_q\n        samples.log_prior = samples.array_to_namespace(self.log_prior(samples))"),
+    ("c10-emcee-mutate-stale-prior", ["C10"], S + "samplers/smc/emcee.py",
+     "        samples.log_prior = samples.array_to_namespace(self.log_prior(samples))\n        samples.log_likelihood",
+     "        samples.log_prior = particles.log_prior\n        samples.log_likelihood"),
+    ("c10-initial-too-many", ["C10"], S + "samplers/mcmc.py",
+     "        if n_samples_drawn > n_samples:\n            samples = samples[:n_samples]\n", "        if n_samples_drawn > n_samples + 1:\n            samples = samples[:n_samples]\n"),
+    ("c10-initial-keeps-infinite-prior", ["C10"], S + "samplers/mcmc.py",
+     "            valid = self.xp.isfinite(new_samples.log_prior)\n", "            valid = ~self.xp.isnan(new_samples.log_prior)\n"),
+    ("c10-enlargement-stale-likelihood", ["C10"], S + "samplers/smc/minipcn.py",
+     "        samples.log_likelihood = samples.array_to_namespace(\n            self.log_likelihood(samples)\n        )",
+     "        samples.log_likelihood = samples.array_to_namespace(\n            self.log_likelihood(samples)\n        ) if len(samples.x) == len(self.history.sample_history[0].x) else particles.log_likelihood"),
     # ---- C19
     ("c19-auto-no-finally", ["C19"], S + "aspire.py",
      "        try:\n            yield self\n        finally:\n            if prev is None:\n                if hasattr(self, \"_checkpoint_defaults\"):\n                    delattr(self, \"_checkpoint_defaults\")\n            else:\n                self._checkpoint_defaults = prev",
